@@ -131,6 +131,7 @@ type simRegistry struct {
 	served    map[string][]byte // "ns/repo:tag" -> manifest bytes last delivered intact to a client
 	tampered  map[string]bool   // names for which a garbled manifest body was delivered at least once
 	frozenFn  func() bool
+	foldCase  bool // repository names and tags are case-insensitive
 
 	// push side
 	uploads   map[string]*simUpload
@@ -274,6 +275,12 @@ func (r *simRegistry) registry(req *http.Request, body []byte) (*http.Response, 
 	repo := p[0] + "/" + p[1]
 	kind := p[2]
 	rest := strings.Join(p[3:], "/")
+	if r.foldCase {
+		repo = strings.ToLower(repo)
+		if kind == "manifests" {
+			rest = strings.ToLower(rest)
+		}
+	}
 	switch {
 	case kind == "manifests" && req.Method == http.MethodGet:
 		name := repo + ":" + rest
